@@ -96,12 +96,14 @@ def tiling_site(repo, col, ms, qn, expect_axes=3, require_count=True):
     fn = repo.func(ms, qn)
     defs = local_defs(fn.node)
     idx = _index_vars(fn, defs)
+    from .dataflow import single_defs
+    subst_table = single_defs(fn.node, defs)
     found_axes = 0
     for i, extent in sorted(idx.items()):
         count = None
         if extent is not None:
             try:
-                c = canon(extent)
+                c = canon(extent, subst_table)
             except NotInt:
                 c = None
             m = CEIL_RE.match(c) if c else None
@@ -289,21 +291,67 @@ def coord_pairs(repo, col, ms, qn, var):
                 and d.kind == "assign" and d.index is None]
         if len(vals) == 1:
             subst[name] = vals[0]
+    def slice_bounds(defs_, name):
+        for d in defs_.get(name, []):
+            v = d.value
+            if isinstance(v, ast.Subscript) and isinstance(v.slice, ast.Slice):
+                return v.slice.lower, v.slice.upper
+            if isinstance(v, ast.Call) and call_name(v) == "slice" and \
+                    len(v.args) in (2, 3):
+                return v.args[0], v.args[1]
+        return None
+
+    def subst_of(defs_):
+        out = {}
+        for name, ds in defs_.items():
+            vals = [d.value for d in ds if d.value is not None
+                    and d.kind == "assign" and d.index is None]
+            if len(vals) == 1:
+                out[name] = vals[0]
+        return out
+
+    def via_generator(name):
+        # `for a, b in gen(...)`: a slice yielded by a local generator
+        from .core import resolve_local_call
+        for d in defs.get(name, []):
+            if d.kind != "for" or not isinstance(d.value, ast.Call):
+                continue
+            h = resolve_local_call(fn, d.value)
+            if h is None:
+                continue
+            hdefs = local_defs(h.node)
+            for y in walk_local(h.node):
+                if not isinstance(y, ast.Yield) or y.value is None:
+                    continue
+                item = y.value
+                if d.index is not None:
+                    if not isinstance(item, ast.Tuple) or \
+                            d.index >= len(item.elts):
+                        continue
+                    item = item.elts[d.index]
+                if isinstance(item, ast.Name):
+                    b = slice_bounds(hdefs, item.id)
+                    if b is not None:
+                        return b, subst_of(hdefs)
+        return None
+
     for k, pair in enumerate(tup.elts):
         forms = []
         for e in pair.elts:
+            sub = subst
             if isinstance(e, ast.Attribute) and e.attr in ("start", "stop") \
                     and isinstance(e.value, ast.Name):
-                sl = None
-                for d in defs.get(e.value.id, []):
-                    v = d.value
-                    if isinstance(v, ast.Subscript) and \
-                            isinstance(v.slice, ast.Slice):
-                        sl = v.slice
-                if sl is not None:
-                    e = sl.lower if e.attr == "start" else sl.upper
+                b = slice_bounds(defs, e.value.id)
+                if b is None:
+                    g = via_generator(e.value.id)
+                    if g is not None:
+                        b, sub = g
+                if b is None:
+                    forms.append(None)      # slice built elsewhere
+                    continue
+                e = b[0] if e.attr == "start" else b[1]
             try:
-                forms.append(canon(e, subst))
+                forms.append(canon(e, sub))
             except NotInt:
                 forms.append(None)
         lo, hi = forms
@@ -322,65 +370,155 @@ def coord_pairs(repo, col, ms, qn, var):
     return 3
 
 
+def stats_model(repo):
+    """Where show_scales_info computes its figures: the function (itself or
+    a local helper / generator it iterates) that holds the per-axis count
+    comprehension, and how the caller receives the figures."""
+    from .core import helper_closure, resolve_local_call
+    top = repo.func("scripts.scale_stats", "show_scales_info")
+    comp_fn, comp = None, None
+    for f in helper_closure(top, depth=2):
+        for n in walk_local(f.node):
+            if isinstance(n, ast.ListComp) and len(n.generators) == 1:
+                g = n.generators[0]
+                if isinstance(g.iter, ast.Call) and \
+                        call_name(g.iter) == "zip" and len(g.iter.args) == 2 \
+                        and isinstance(g.target, ast.Tuple):
+                    comp_fn, comp = f, n
+    return top, comp_fn, comp
+
+
+def _received_as(top, comp_fn, name):
+    """Names under which `top` receives comp_fn's local `name` (identity when
+    both are one function; through `for a, b in gen(...)` / `a, b = h(...)`
+    when comp_fn yields or returns a tuple).  None if not resolvable."""
+    from .core import resolve_local_call
+    if comp_fn is top:
+        return {name}
+    out = set()
+    positions = set()
+    for n in walk_local(comp_fn.node):
+        v = None
+        if isinstance(n, (ast.Yield, ast.Return)) and n.value is not None:
+            v = n.value
+        if isinstance(v, ast.Tuple):
+            for i, e in enumerate(v.elts):
+                if isinstance(e, ast.Name) and e.id == name:
+                    positions.add(i)
+    if not positions:
+        return None
+    for nm, ds in local_defs(top.node).items():
+        for d in ds:
+            if isinstance(d.value, ast.Call) and d.index in positions and \
+                    resolve_local_call(top, d.value) is comp_fn:
+                out.add(nm)
+    return out or None
+
+
 def count_formula(repo, col):
     """scale_stats: chunk count = prod ceil(size / chunk size) per axis;
     bytes = prod(size) * itemsize * channels."""
     rule = "E-TILE.stats"
-    fn = repo.func("scripts.scale_stats", "show_scales_info")
+    top, fn, comp = stats_model(repo)
+    if fn is None:
+        col.add(rule, top, "chunks per axis = ceil(size / chunk_size)", True,
+                "per-axis count comprehension not found in %s or its helpers"
+                % top.key, undecided=True)
+        return
     defs = local_defs(fn.node)
     ok_count = False
-    node = None
-    for n in walk_local(fn.node):
-        if isinstance(n, ast.ListComp) and len(n.generators) == 1:
-            g = n.generators[0]
-            it = g.iter
-            if isinstance(it, ast.Call) and call_name(it) == "zip" and \
-                    len(it.args) == 2 and isinstance(g.target, ast.Tuple):
-                srcs = [norm(a) for a in it.args]
-                tn = [t.id for t in g.target.elts if isinstance(t, ast.Name)]
-                try:
-                    c = canon(n.elt)
-                except NotInt:
-                    continue
-                m = CEIL_RE.match(c)
-                node = n
-                if m and len(tn) == 2:
-                    s_src = srcs[tn.index(m.group(1))] if m.group(1) in tn else None
-                    c_src = srcs[tn.index(m.group(2))] if m.group(2) in tn else None
-                    ok_count = s_src == "size" and c_src == "chunk_size"
-    col.add(rule, fn, "chunks per axis = ceil(size / chunk_size)", ok_count,
+    node = comp
+    und = False
+    g = comp.generators[0]
+    srcs = [norm(a) for a in g.iter.args]
+    tn = [t.id for t in g.target.elts if isinstance(t, ast.Name)]
+    try:
+        c = canon(comp.elt)
+        m = CEIL_RE.match(c)
+        if m and len(tn) == 2:
+            s_src = srcs[tn.index(m.group(1))] if m.group(1) in tn else None
+            c_src = srcs[tn.index(m.group(2))] if m.group(2) in tn else None
+            ok_count = s_src == "size" and c_src == "chunk_size"
+    except NotInt:
+        und = True
+    col.add(rule, fn, "chunks per axis = ceil(size / chunk_size)",
+            ok_count or und,
             "same count the conversion loops use" if ok_count else
             "per-axis chunk count is not ceil(size / chunk_size) over "
             "zip(size, chunk_size): the statistic differs from what the "
-            "writers produce", node=node, undecided=node is None)
+            "writers produce", node=node, undecided=und)
+    # the list of per-axis counts and its product
+    lname = None
+    for nm, ds in defs.items():
+        if any(d.value is comp for d in ds):
+            lname = nm
+    cnt_names = set()
+    for nm, ds in defs.items():
+        for d in ds:
+            if isinstance(d.value, ast.Call) and lname is not None and \
+                    (call_name(d.value) or "").split(".")[-1] == "prod" and \
+                    d.value.args and norm(d.value.args[0]) == lname:
+                cnt_names.add(nm)
+    okp = bool(cnt_names)
     txt = norm(fn.node)
-    okp = "num_chunks = np.prod(size_in_chunks)" in txt
     col.add(rule, fn, "num_chunks = prod(per-axis counts)", okp,
             "" if okp else "total chunk count is not the product of the "
-            "per-axis counts", undecided=not okp and "np.prod" in txt)
-    okb = False
+            "per-axis counts", undecided=not okp and lname is None)
+    byte_names = set()
+    saw_bytes = False
     for name, ds in defs.items():
         for d in ds:
-            if d.value is not None and name == "size_bytes":
-                try:
-                    p = poly(d.value)
-                    okb = pstr(p) in ("dtype.itemsize*np.prod(size)*num_channels",
-                                      "dtype.itemsize*num_channels*np.prod(size)")
-                except NotInt:
-                    t = norm(d.value)
-                    okb = t == "np.prod(size) * dtype.itemsize * num_channels"
+            if d.value is None or "prod(size)" not in norm(d.value):
+                continue
+            saw_bytes = True
+            try:
+                p = poly(d.value)
+                okb = pstr(p) in ("dtype.itemsize*np.prod(size)*num_channels",
+                                  "dtype.itemsize*num_channels*np.prod(size)")
+            except NotInt:
+                okb = norm(d.value) == \
+                    "np.prod(size) * dtype.itemsize * num_channels"
+            if okb:
+                byte_names.add(name)
+            else:
+                byte_names.discard(name)
+                byte_bad = name
+    okb = bool(byte_names)
     col.add(rule, fn, "bytes = prod(size) * itemsize * num_channels", okb,
             "" if okb else "uncompressed size is not prod(size) * itemsize * "
-            "num_channels")
-    oka = "total_chunks += num_chunks" in txt and "total_size += size_bytes" in txt
-    col.add(rule, fn, "totals accumulate every scale", oka,
-            "" if oka else "totals do not add each scale's count and size")
+            "num_channels", undecided=not okb and not saw_bytes)
+    # totals: the caller adds each line's count and size
+    tdefs = local_defs(top.node)
+    augs = [s_ for s_ in stmts_of(top.node) if isinstance(s_, ast.AugAssign)
+            and isinstance(s_.op, ast.Add) and isinstance(s_.target, ast.Name)]
+    added = {}
+    for s_ in augs:
+        added.setdefault(s_.target.id, set()).add(norm(s_.value))
+    res = {}
+    for what, names in (("count", cnt_names), ("bytes", byte_names)):
+        recv = set()
+        unresolved = False
+        for nm in names:
+            r = _received_as(top, fn, nm)
+            if r is None:
+                unresolved = True
+            else:
+                recv |= r
+        hit = [t for t, vs in added.items() if vs & recv]
+        res[what] = (hit, unresolved or not names)
+    oka = bool(res["count"][0]) and bool(res["bytes"][0])
+    unda = not oka and (res["count"][1] or res["bytes"][1])
+    col.add(rule, top, "totals accumulate every scale", oka or unda,
+            "" if oka else "totals do not add each scale's count and size",
+            undecided=unda)
     # statelessness across calls: totals start from zero inside the function
-    okz = all(any(isinstance(d.value, ast.Constant) and d.value.value == 0
-                  for d in defs.get(nm, [])) for nm in ("total_size",
-                                                        "total_chunks"))
-    col.add(rule, fn, "totals start at 0 in each call", okz,
-            "" if okz else "totals are not re-initialised per call")
+    tot = res["count"][0] + res["bytes"][0]
+    okz = bool(tot) and all(any(
+        isinstance(d.value, ast.Constant) and d.value.value == 0
+        for d in tdefs.get(nm, [])) for nm in tot)
+    col.add(rule, top, "totals start at 0 in each call", okz or not tot,
+            "" if okz else "totals are not re-initialised per call",
+            undecided=not tot)
 
 
 # ---------------------------------------------------------------------
